@@ -367,9 +367,17 @@ pub fn check(property: &str, tier: &str) -> i32 {
     let mut new_violations = 0;
     let mut known_hit: Vec<String> = Vec::new();
     let mut replay_paths: Vec<String> = Vec::new();
+    // triage aids: VERIF_MAX_REPORT=n reports (and minimises) at most n new violations, VERIF_MINIMISE_SECS bounds each minimisation
+    let max_report: usize = std::env::var("VERIF_MAX_REPORT").ok().and_then(|s| s.parse().ok()).unwrap_or(usize::MAX);
+    let min_secs: u64 = std::env::var("VERIF_MINIMISE_SECS").ok().and_then(|s| s.parse().ok()).unwrap_or(20);
     for (sig, f) in agg.owned.iter() {
         let is_known = known.iter().find(|k| k.status == "known" && k.property == property && &k.signature == sig);
-        let minimised = minimise::minimise(&f.trace, profile.owners, sig, Duration::from_secs(if is_known.is_some() { 3 } else { 20 }));
+        if is_known.is_none() && new_violations >= max_report {
+            new_violations += 1;
+            println!("VIOLATION property={} replay=(not minimised: VERIF_MAX_REPORT) signature: {}", property, sig);
+            continue;
+        }
+        let minimised = minimise::minimise(&f.trace, profile.owners, sig, Duration::from_secs(if is_known.is_some() { 3 } else { min_secs }));
         // the minimised trace must reproduce the same signature in a fresh execution
         let again = minimise::owned_signature(&minimised, profile.owners);
         if again.as_deref() != Some(sig.as_str()) {
